@@ -41,14 +41,21 @@ TOL = (1e-12, 1e-300)
 RULE = ("a case = one table (or one program with several objects made from a few tables) with its list of operations; non-trivial = a 1-D case containing an extremum query whose limits span >= 3 segments with "
         "the reported extremum taken at an interior knot, or any query made under a negative prefactor; distinct by case text")
 LEVEL_TEXT = ("Theorems (Coq, over the reals, every valid table N >= 3, every prefactor c of either sign reached by any sequence of Set_Prefactor/Multiply): "
-              "for limits inside the tabulated domain Integrate(x1,x2) is the Riemann integral (Coquelicot RInt) of c*curve, hence additive, antisymmetric, bounded by "
-              "Local_Minimum/Maximum times the length, and its derivative in the upper limit is Interpolate; Local_Minimum/Maximum(x1,x2) are lower/upper bounds of "
-              "c*curve on [x1,x2] and are attained there; Global_Minimum/Maximum likewise on the whole domain (1-D) and on every cell of the grid (2-D); all scale "
-              "with the prefactor as Interpolate does; the default-constructed objects are proved to be such objects of a valid all-zero table. The same Gallina terms are extracted and run against the C++ classes on every run, and every clause is "
+              "for EVERY pair of limits the library accepts -- inside the tabulated domain or in the 1 % extrapolation zone beyond its ends, in either order -- Integrate(x1,x2) is the Riemann integral (Coquelicot RInt) of c*curve, the curve Interpolate returns there "
+              "(C08_accepted_limits), hence additive and antisymmetric, and its derivative in the upper limit is Interpolate at every accepted point, end abscissae included "
+              "(C08_integrate_laws_accepted_limits); with a limit that is not accepted Integrate and Local_Minimum/Maximum terminate the process, as do reversed limits of the latter (C08_rejected_limits, C08_local_extremum_reversed_limits). "
+              "For limits inside the tabulated domain Integrate is bounded by Local_Minimum/Maximum times the length; Local_Minimum/Maximum(x1,x2) are lower/upper bounds of "
+              "c*curve on [x1,x2] and are attained there; Global_Minimum/Maximum likewise on the whole domain (1-D) and on every cell of the grid (2-D); a window encloses each of its sub-windows and the global extrema enclose every window, whatever the number of intervals spanned (C08_extrema_nested); "
+              "ALL of these scale with the prefactor as Interpolate does: Integrate under c is c times Integrate under 1, local and global extrema in 1-D and 2-D are c times those under 1, minimum and maximum exchanged for c <= 0 "
+              "(C08_prefactor_scaling, C08_prefactor_scaling_2d, C08_local_extrema_scale); the default-constructed objects are proved to be such objects of a valid all-zero table. "
+              "Floating point: for ANY number type whose comparisons form a total order (IEEE doubles without NaN, rounding included), any table length, prefactor and limits, the value Local_Minimum/Maximum returns is exactly the least/greatest of the candidates -- Interpolate at the two limits and prefactor*f_k for every tabulated abscissa k = i_1..i_2+1 inside the limits (C08_local_minimum_select, C08_local_maximum_select; no arithmetic law is used); this is the exact reference the S4 predicates compare the library with. "
+              "The same Gallina terms are extracted and run against the C++ classes on every run, and every clause is "
               "evaluated on the implementation's output (S4: exact reference for the extrema, Gauss quadrature for the integrals, dense sampling). "
               "Programs with several objects: the classes have value semantics, modelled by a store of objects (lstep); theorems: a copy (copy construction / assignment, by-value parameter, vector element) or a moved object keeps the table and prefactor of its source through every later operation on other objects, re-assignment or destruction of the source included; that the C++ objects behave like this store is tied by correspondence and S4 (sessions). "
-              "Long tables: the loops of Integrate and Local_Minimum/Maximum can be cut after any number of steps and resumed with the running value (theorems, any NumOps instance); tables of 10^3..10^5 points are run through the extracted functions window by window. "
-              "Not a theorem: the objects made by the data-table constructors (model by specification, tied by correspondence and S4 only); limits in the 1 % extrapolation zone outside the table (the cubic need not be monotone there; probed by S4 only); floating-point rounding.")
+              "Long tables: the loops of Integrate and Local_Minimum/Maximum can be cut after any number of steps and resumed with the running value (theorems, any NumOps instance); tables of 10^2..10^5 points are run through the extracted functions window by window, "
+              "with the remarkable ordinate placed at the first / last abscissa inside the limits and with blocks of ordinates 2^10..2^300 times larger elsewhere in the table. "
+              "Not a theorem: that the EXTREMA bound the curve in the 1 % extrapolation zone -- they do not (known finding K-C08-1; no refutation theorem is stated, the witness is replayed on every run); the objects made by the data-table constructors are tied to those made from lists by the theorems of C01 (construct_rows_complete) and otherwise by correspondence and S4; "
+              "rounding of the arithmetic in Interpolate and Integrate (the integrals are compared with quadrature within the a-priori slack).")
 LEVEL_NOTE = ("Coq 8.16.1 kernel; theorems over R use the standard library's real-number axioms and Coquelicot; hand-written model tied by differential "
               "correspondence (extraction with ExtrOcamlBasic only); std::min_element/max_element modelled as first smallest / first largest by a fold")
 TRUSTED = ["std::min_element / std::max_element are modelled by a left fold keeping the first smallest / largest element",
@@ -57,7 +64,8 @@ TRUSTED = ["std::min_element / std::max_element are modelled by a left fold keep
            "long tables (b1, k1): the driver evaluates the extracted construct / locate / interpolate / integrate_loop / knot_scan on windows of 12 segments plus two tabulated points on either side (the Steffen coefficients of a segment depend on those points only) and threads the running sum / extremum from window to window; the choice of the window is a plain binary search in the driver",
            "several objects (s1, r1, s2, r2): the driver maps construction, copy, move, destruction and swap of the C++ objects to the operations LPut, LCopy, LMove, LDrop, LSwap of the store model",
            "the model answers every query from the search state of a fresh object (the search state machine is property C09); the harness asks copies (t1, d1, t0, t2, d2, z2) or the one live object (h1, e1, h0, h2)"]
-ASSUMPTIONS = ["extremum and integral theorems assume limits inside [x_0, x_{N-1}]; the 1 % extrapolation zone is covered by correspondence and S4 only"]
+ASSUMPTIONS = ["the extremum theorems (bounds of the curve, bounded integral, nesting, scaling) assume limits inside [x_0, x_{N-1}]; the integral theorems hold for every accepted limit, the 1 % extrapolation zone included",
+               "C08_local_minimum_select / C08_local_maximum_select assume OrdLaws (comparisons form a total order: no NaN among the values compared)"]
 
 NS = 48   # dense sampling of an extremum query
 
@@ -280,7 +288,12 @@ def rule_table(N, s0, xk, X0, jit, yk, p1, p2, ym):
             if i > 0: Y += nxt() % (2 * p2 + 1) - p2
             v = Y
         elif yk == 4: v = p1 + p2 * ((i % 16) if i % 16 < 8 else 16 - (i % 16))
-        else: v = p1 + (1000 if i == p2 else 0)
+        elif yk == 5: v = p1 + (1000 if i == p2 else 0)
+        elif yk in (6, 7):     # random ordinates p1 .. p1+15, scaled by 2^E on the knots before (6) / from (7) the knot q;  p2 = q + N*E
+            q, E = p2 % N, p2 // N
+            v = math.ldexp(float(p1 + nxt() % 16), E if ((i < q) == (yk == 6)) else 0)
+        elif yk == 8: v = p1 + (p2 if i % 2 == 0 else -p2) * i           # zig-zag of growing amplitude: every window has its extrema at its last knots
+        else: v = p1 + (p2 if i % 2 == 0 else -p2) * (N - i)             # ... of shrinking amplitude: at its first knots
         ys.append(float(v) * uy)
     if len(_RT) > 6: _RT.clear()
     _RT[key] = (xs, ys)
@@ -288,26 +301,40 @@ def rule_table(N, s0, xk, X0, jit, yk, p1, p2, ym):
 
 
 SIZE_LADDER = [2 ** p + e for p in range(10, 19) for e in (-1, 0, 1, 2, 3)]
+SMALL_LADDER = [1, 2, 3, 5] + [2 ** p + e for p in range(3, 10) for e in (-1, 0, 1, 2, 3)]
+FULL_LADDER = SMALL_LADDER + SIZE_LADDER
+BLOCK_EXP = [10, 20, 30, 40, 50, 53, 64, 90, 150, 300]     # dynamic range 2^E between the two blocks of a table (ykind 6, 7)
+ALL_YK = (0, 0, 1, 2, 2, 3, 3, 4, 5, 5, 6, 6, 7, 7, 8, 9)
 
 
-def big_case(rng, N, yks=(0, 0, 1, 2, 2, 3, 3, 4, 5)):
-    """a table of N points by rule, queried on long spans: the whole domain, spans of 2^p + {-1..2} segments, splits next to 2^p segments"""
+def big_case(rng, N, yks=ALL_YK):
+    """a table of N points by rule, queried on long spans: the whole domain, spans of 2^p + {-1..3} segments (p = 1, 2, ... up to the table), splits next
+    to 2^p segments.  Where in a window the table is remarkable is aimed as well:
+      ykind 5: one outstanding value, placed at / next to the first or the last tabulated abscissa inside the limits (limits inside the adjacent
+               segments, on the abscissa itself, 1 ulp off), or 2^p + {-1..3} knots into the span;
+      ykind 6, 7: two blocks whose magnitudes differ by 2^E (E up to 300), windows in the low block at a ladder of distances from the tall one, in the tall
+               block, and across the step;
+      ykind 8, 9: a zig-zag of growing / shrinking amplitude, so that EVERY window takes its extrema at its last / first abscissae."""
     s0 = rng.randrange(1, 2 ** 31); xk = rng.choice([-3, -3, -6, -10, 0, 4])
     X0 = rng.choice([0, 0, -4 * N, -8 * (N - 1), 2 ** 24, -2 ** 26, 8 * rng.randrange(1, 1000)])
     jit = 1 if rng.random() < 0.7 else 0
-    yk = rng.choice(yks)
+    yk = rng.choice(yks); q = None
     if yk == 0: p1, p2 = rng.choice([-1, 1]) * rng.randint(1, 1000), 0
     elif yk == 1: p1, p2 = rng.randint(-1000, 1000), rng.choice([1, -1, 3])
     elif yk == 2: p1, p2 = rng.randint(-100, 100), rng.randint(1, 50)
     elif yk == 3: p1, p2 = rng.randint(-100, 100), rng.randint(1, 8)
     elif yk == 4: p1, p2 = rng.randint(-20, 20), rng.choice([-1, 1]) * rng.randint(1, 5)
-    else: p1, p2 = rng.randint(-3, 3), rng.randrange(N)
-    spike_spans = []
-    lad = [L for L in SIZE_LADDER if L <= N - 3]
+    elif yk == 5: p1, p2 = rng.randint(-3, 3), rng.randrange(N)
+    elif yk in (6, 7):
+        # the step: anywhere, at a quarter of the table (the low block is the long one), or a few (2^p + 2) knots from the end of the tall block
+        e = max(3, min(N - 4, rng.choice([5, 17, 50, 66, 130, 514])))
+        q = rng.choice([rng.randrange(3, N - 3), N // 4 if yk == 6 else (3 * N) // 4, N // 4 if yk == 6 else (3 * N) // 4, e if yk == 6 else N - 1 - e])
+        p1, p2 = rng.choice([-40, -15, -8, -3, 0, 1, 5, 30]), q + N * rng.choice(BLOCK_EXP)
+    else: p1, p2 = rng.randint(-20, 20), rng.choice([-1, 1]) * rng.randint(1, 5)
+    lad = [L for L in FULL_LADDER if L <= N - 3]; ladL = [L for L in SIZE_LADDER if L <= N - 3]
     if yk == 5 and lad:
         # one outstanding value, placed 2^p + {-1..3} knots after the start of a long span (and of spans on the lower rungs of the ladder)
-        L = rng.choice(lad[-5:]); i0 = rng.randrange(0, N - 2 - L); p2 = i0 + L
-        spike_spans = [(i0, rng.randint(p2, N - 2))] + [(p2 - L2, rng.randint(p2, min(N - 2, p2 + 50))) for L2 in rng.sample(lad, min(2, len(lad))) if p2 - L2 >= 0]
+        L = rng.choice((ladL or lad)[-5:]); i0 = rng.randrange(0, N - 2 - L); p2 = i0 + L
     ym = rng.choice([-4, 0, -20, 10])
     r = rng.random()
     xd, fd = (-1.0, -1.0) if r < 0.6 else ((2.0 ** rng.randint(-20, 20), -1.0) if r < 0.75 else ((-1.0, 10 ** rng.uniform(-6, 6)) if r < 0.9 else (10 ** rng.uniform(-3, 3), 10 ** rng.uniform(-6, 6))))
@@ -316,26 +343,56 @@ def big_case(rng, N, yks=(0, 0, 1, 2, 2, 3, 3, 4, 5)):
         i = max(0, min(N - 2, i))
         if knot is None: knot = rng.random() < 0.5
         return xs[i] if knot else inside(rng, xs, i)
+    def near(p, side):
+        """a limit next to the tabulated abscissa p, approached from the window that lies on the given side (-1: the window ends here, +1: it starts here):
+        inside the adjacent segment beyond p (p is the last / first abscissa inside the limits), on p, 1 ulp off, or short of p (p is just outside)"""
+        w = rng.choice(["beyond", "beyond", "beyond", "on", "ulp-beyond", "ulp-short", "short"])
+        if w == "on": return xs[p]
+        if w == "ulp-beyond": return math.nextafter(xs[p], math.inf * -side)
+        if w == "ulp-short": return math.nextafter(xs[p], math.inf * side)
+        j = p if (w == "beyond") == (side < 0) else p - 1
+        j = max(0, min(N - 2, j)); h = xs[j + 1] - xs[j]
+        return xs[j] + h * rng.choice([0.5, 0.25, 0.75, 2.0 ** -10, 1 - 2.0 ** -10, rng.uniform(0.01, 0.99)])
     ops = pref_ops(rng)
-    spans = [(0, N - 2)] + spike_spans
-    lad = [L for L in SIZE_LADDER if L <= N - 2]
-    for L in rng.sample(lad, min(len(lad), 3)) + ([max(lad)] if lad else []):
-        i = rng.randrange(0, N - 1 - L); spans.append((i, i + L))
-    i = rng.randrange(0, N - 2); spans.append((i, rng.randrange(i, N - 1)))
-    for (i, k) in spans:
-        a = pt(i); b = xs[-1] if (k >= N - 2 and rng.random() < 0.5) else pt(k)
+    spans = [(0, N - 2, None, None)]; both_signs = set()
+    if yk == 5 and lad:
+        p = p2
+        spans.append((i0, rng.randint(p, N - 2), None, None))
+        spans += [(p - L2, rng.randint(p, min(N - 2, p + 50)), None, None) for L2 in rng.sample(lad, min(2, len(lad))) if p - L2 >= 0]
+        for L2 in rng.sample(lad, min(4, len(lad))) + ([max(lad)] if rng.random() < 0.5 else []):
+            # the outstanding value at the right end of a window of about L2 segments, and at the left end of another
+            if 1 <= p <= N - 2 and p - L2 >= 0: spans.append((p - L2, p, pt(p - L2), near(p, -1)))
+            if 1 <= p <= N - 2 and p + L2 <= N - 2: spans.append((p, p + L2, near(p, +1), pt(p + L2)))
+        both_signs = set(spans[1:])
+    if yk in (6, 7):
+        # windows in the low block at a ladder of distances from the step; in the tall block; across the step
+        for _k in range(8):
+            dist = rng.choice([0, 1, 1, 2, 3, 4, 8, 17, 65, 300]); room = (N - 2 - q - dist) if yk == 6 else (q - 2 - dist)
+            fit = [L for L in lad if L <= room] or [1]
+            L2 = rng.choice(fit[len(fit) // 2:] if _k % 2 else fit)      # every other window from the upper half of the rungs that fit
+            if yk == 6: i = min(N - 2, q + dist); k = min(N - 2, i + L2)
+            else: k = max(0, q - 2 - dist); i = max(0, k - L2)
+            spans.append((i, k, None, None))
+        i = rng.randrange(0, N - 2); k = min(N - 2, i + rng.choice(lad)); spans.append((i, k, None, None))
+    for L in (rng.sample(ladL, min(len(ladL), 3)) if ladL else []) + rng.sample(lad, min(len(lad), 3)) + ([max(lad)] if lad else []):
+        i = rng.randrange(0, N - 1 - L); spans.append((i, i + L, None, None))
+    i = rng.randrange(0, N - 2); spans.append((i, rng.randrange(i, N - 1), None, None))
+    for sp in spans:
+        (i, k, a, b) = sp
+        if a is None: a = pt(i)
+        if b is None: b = xs[-1] if (k >= N - 2 and rng.random() < 0.5) else pt(k)
         if a > b: a, b = b, a
         # a split point: in the middle, or 2^p + {-1, 0, 1} segments away from one end
-        cand = [i + L for L in SIZE_LADDER if i + L < k] + [k - L for L in SIZE_LADDER if k - L > i]
+        cand = [i + L for L in FULL_LADDER if i + L < k] + [k - L for L in FULL_LADDER if k - L > i]
         m = pt(rng.choice(cand)) if cand and rng.random() < 0.7 else pt(rng.randint(i, k))
         m = min(max(m, a), b)
         # one or two integral operations and one extremum operation on every span
         integ = [[f"A {hx(a)} {hx(m)} {hx(b)}"], [f"A {hx(b)} {hx(a)} {hx(m)}"], [f"W {hx(a)} {hx(b)}"], [f"W {hx(b)} {hx(a)}"],
-                 [f"N {hx(a)} {hx(b)}", f"N {hx(a)} {hx(m)}", f"N {hx(m)} {hx(b)}"]]
+                 [f"N {hx(a)} {hx(b)}", f"N {hx(a)} {hx(m)}", f"N {hx(m)} {hx(b)}"], [f"B {hx(a)} {hx(b)}"]]
         for blk in rng.sample(integ, rng.choice([1, 2])): ops += blk
         ops += rng.choice([[f"E {hx(a)} {hx(b)} {NS}"], [f"B {hx(a)} {hx(b)}"], [f"m {hx(a)} {hx(b)}", f"M {hx(a)} {hx(b)}"]])
-        if (i, k) in spike_spans:      # the outstanding value is the maximum under one sign of the prefactor and the minimum under the other
-            ops += [f"X {hx(-1.0)}", rng.choice([f"E {hx(a)} {hx(b)} {NS}", f"B {hx(a)} {hx(b)}"])]
+        if sp in both_signs:      # the outstanding value is the maximum under one sign of the prefactor and the minimum under the other
+            ops += [f"X {hx(-1.0)}"] + rng.choice([[f"E {hx(a)} {hx(b)} {NS}"], [f"B {hx(a)} {hx(b)}"], [f"m {hx(a)} {hx(b)}", f"M {hx(a)} {hx(b)}"]])
         if rng.random() < 0.3: ops += pref_ops(rng, True)
     j = rng.randrange(N - 1); h = xs[j + 1] - xs[j]
     ops += [f"Z {NS}", "g", "G", f"U {hx(xs[max(0, j - 1)])} {hx(xs[j] + h * rng.uniform(0.3, 0.7))} {hx(h / 16.0)}", f"I {hx(inside(rng, xs, j))}"]
@@ -560,7 +617,11 @@ def generate(rng, tier):
     # long tables: a size ladder across the powers of two up to 2^17 (2^18 in the thorough tier); every run has tables beyond 2^16 and 2^17 points
     if big: sizes = [rng.choice(SIZE_LADDER) + rng.choice([0, 0, 1, 2, 7, 100]) for _ in range(30)] + [65536 + rng.randint(3, 6000) for _ in range(8)] + [131072 + rng.randint(3, 9000) for _ in range(5)] + [262144 + rng.randint(3, 9000) for _ in range(2)]
     else: sizes = [rng.choice([1025, 4098, 16387, 32770]), 65536 + rng.randint(3, 6000), 131072 + rng.randint(3, 9000), 65536 + rng.randint(10, 6000)]
-    for k, N in enumerate(sizes): cs.append(big_case(rng, N, ((2, 3, 3, 4) if k == 1 else (5,) if k == 3 else (0, 0, 1, 2, 2, 3, 3, 4, 5)) if not big else (0, 0, 1, 2, 2, 3, 3, 4, 5, 5)))
+    for k, N in enumerate(sizes): cs.append(big_case(rng, N, ((2, 3, 3, 4) if k == 1 else (5,) if k == 3 else ALL_YK) if not big else ALL_YK))
+    # tables of 2^6 .. 2^12 (+-) points: every ordinate kind; the kinds that aim at the ends of a window and at a change of magnitude inside the table on every run
+    mids = [2 ** p + e for p in range(6, 13) for e in (-1, 0, 1, 2, 3, 7)]
+    for k in range(400 if big else 18):
+        cs.append(big_case(rng, rng.choice(mids) + rng.choice([0, 0, 0, 1, 30]), ((5,), (6,), (7,), (8, 9), (6,), (7,), (5,), (6,), ALL_YK)[k % 9]))
     return cs
 
 
@@ -594,16 +655,29 @@ def read_ops(r, n, two_d):
     return ops
 
 
+class RangeSum:
+    """sums of non-negative terms over index ranges, added up directly (whole blocks of 256 terms + the loose ends): a difference of prefix sums
+    would lose the terms of a low stretch of a table behind a tall one"""
+    B = 256
+    def __init__(self, t):
+        self.t = t; self.blk = [math.fsum(t[k:k + self.B]) for k in range(0, len(t), self.B)]
+    def sum(self, j0, j1):
+        if j1 <= j0: return 0.0
+        B = self.B; b0 = -(-j0 // B); b1 = j1 // B
+        if b0 >= b1: return math.fsum(self.t[j0:j1])
+        return math.fsum(self.t[j0:b0 * B]) + math.fsum(self.blk[b0:b1]) + math.fsum(self.t[b1 * B:j1])
+
+
 class LongAux:
-    """prefix sums over the segments of a long table: the scale of the antiderivative terms, the L1 norm of the table and the Gauss-sum slack"""
+    """sums over the segments of a long table: the scale of the antiderivative terms, the L1 norm of the table and the Gauss-sum slack"""
     def __init__(self, xs, ys):
-        n = len(xs) - 1; ps = [0.0] * (n + 1); pl = [0.0] * (n + 1); pg = [0.0] * (n + 1)
+        n = len(xs) - 1; ts = [0.0] * n; tl = [0.0] * n; tg = [0.0] * n
         for j in range(n):
             h = xs[j + 1] - xs[j]; dy = abs(ys[j + 1] - ys[j]); ym = max(abs(ys[j]), abs(ys[j + 1])); xm = max(abs(xs[j]), abs(xs[j + 1]))
-            ps[j + 1] = ps[j] + 4 * (5.5 * dy * h + 1.0101 * ym * xm)      # the piece itself and its left neighbour, as in int_scale; 1 % zone included
-            pl[j + 1] = pl[j] + ym * h
-            pg[j + 1] = pg[j] + h * 4 * (64 * EPS * (17 * dy + ym))
-        self.xs, self.n, self.ps, self.pl, self.pg = xs, n, ps, pl, pg
+            ts[j] = 4 * (5.5 * dy * h + 1.0101 * ym * xm)      # the piece itself and its left neighbour, as in int_scale; 1 % zone included
+            tl[j] = ym * h
+            tg[j] = h * 4 * (64 * EPS * (17 * dy + ym))
+        self.xs, self.n, self.ps, self.pl, self.pg = xs, n, RangeSum(ts), RangeSum(tl), RangeSum(tg)
     def span(self, a, b):
         lo, hi = min(a, b), max(a, b)
         ja, jb = locate_ref(self.xs, lo), locate_ref(self.xs, hi)
@@ -614,10 +688,10 @@ class LongAux:
         """as int_scale, plus the growth of the running sum over many pieces: (number of pieces) * (L1 norm of the span) / 32, i.e. 2 eps per addition
         relative to the largest partial sum once multiplied by the 64 eps of the integral slack"""
         j0, j1 = self.span(a, b)
-        return abs(c) * ((self.ps[j1] - self.ps[j0]) + (j1 - j0) * (self.pl[j1] - self.pl[j0]) / 32.0)
+        return abs(c) * (self.ps.sum(j0, j1) + (j1 - j0) * self.pl.sum(j0, j1) / 32.0)
     def gslack(self, c, a, b):
         j0, j1 = self.span(a, b)
-        return abs(c) * ((self.pg[j1] - self.pg[j0]) + (j1 - j0) * 4 * EPS * (self.pl[j1] - self.pl[j0])) + 1e-300
+        return abs(c) * (self.pg.sum(j0, j1) + (j1 - j0) * 4 * EPS * self.pl.sum(j0, j1)) + 1e-300
 
 
 def _parse_case(line):
